@@ -82,6 +82,7 @@ type interposer struct {
 	held         int64 // replies delivered after their machine was killed and seen stopped
 	midbody      int64 // replies cut in the middle of their body with their machine killed
 	midbodyBytes int64
+	dropped      int64           // replies dropped after the call had been executed
 	hosts        map[string]bool // hosts addressed by any RPC of this session
 	inflightWork int64           // RPCs in flight other than keepalive/stats polling
 	killed       []string
@@ -150,7 +151,21 @@ func (ip *interposer) RoundTrip(req *http.Request) (*http.Response, error) {
 	}
 	resp, err := ip.next.RoundTrip(req)
 	for _, a := range acts {
-		if a.When == "after" && a.What == "kill-target-midbody" {
+		if a.When == "after" && a.What == "drop-reply" {
+			// the call was executed by the worker but its reply is lost on the way back (a
+			// connection reset): no machine is harmed; the caller sees a transport error
+			if err == nil && resp != nil {
+				if resp.Body != nil {
+					io.Copy(io.Discard, resp.Body)
+					resp.Body.Close()
+				}
+				atomic.AddInt64(&ip.fired, 1)
+				atomic.AddInt64(&ip.dropped, 1)
+				resp, err = nil, fmt.Errorf("verif: connection reset by peer (reply of %s dropped)", method)
+			}
+			continue
+		}
+		if a.When == "after" && (a.What == "kill-target-midbody" || a.What == "kill-target-midbody-hold") {
 			// The machine dies in the middle of a streamed reply (a shuffle or scan read): the
 			// caller receives the first half of the body and then a broken connection.
 			if err == nil && resp != nil && resp.Body != nil {
@@ -164,6 +179,19 @@ func (ip *interposer) RoundTrip(req *http.Request) (*http.Response, error) {
 						ip.mu.Lock()
 						ip.midbodyBytes += int64(len(body))
 						ip.mu.Unlock()
+						if a.What == "kill-target-midbody-hold" {
+							// the reader learns of the broken stream only after the executor has
+							// recorded the loss: its retry then finds the task lost and recomputed,
+							// and resumes at the offset it had reached
+							want := "lost machine " + m.Addr + ":"
+							for i := 0; i < 1000; i++ {
+								if logSeen(want) {
+									atomic.AddInt64(&ip.held, 1)
+									break
+								}
+								time.Sleep(10 * time.Millisecond)
+							}
+						}
 					}
 					resp.Body = io.NopCloser(io.MultiReader(bytes.NewReader(body[:len(body)/2]), errReader{io.ErrUnexpectedEOF}))
 				} else {
